@@ -155,10 +155,14 @@ impl OptSpec {
         }
     }
 
-    /// The same option set built in one of three ways (chosen by the width,
+    /// The same option set built in one of four ways (chosen by the width,
     /// so that it is a pure function of the case): builder calls starting
     /// from `Options::new(width)`, builder calls in the opposite order ending
-    /// with `.width(..)`, or direct assignment to the public fields. The
+    /// with `.width(..)`, direct assignment to the public fields, or — the way
+    /// most callers do it — `Options::from(width)` with a builder call only
+    /// for what differs from the documented defaults (so that the defaults
+    /// `Options::new`, `WrapAlgorithm::new`, `WordSeparator::new` and
+    /// `WordSplitter::HyphenSplitter` provide are themselves exercised). The
     /// properties quantify over option *values*; how a caller arrives at them
     /// must not matter.
     pub fn options(&self) -> Options<'_> {
@@ -167,8 +171,59 @@ impl OptSpec {
         } else {
             LineEnding::LF
         };
-        match self.width % 3 {
-            0 => Options::new(self.width)
+        match (self.width % 4, self.width % 3) {
+            (3, _) => {
+                let full = cfg!(feature = "full");
+                let mut o = Options::from(self.width);
+                if self.crlf {
+                    o = o.line_ending(le);
+                }
+                if !self.initial_indent.is_empty() {
+                    o = o.initial_indent(&self.initial_indent);
+                }
+                if !self.subsequent_indent.is_empty() {
+                    o = o.subsequent_indent(&self.subsequent_indent);
+                }
+                if !self.break_words {
+                    o = o.break_words(false);
+                }
+                let default_algo = if full { Algo::Optimal(PenSpec::DEFAULT) } else { Algo::FirstFit };
+                if self.algo != default_algo {
+                    o = o.wrap_algorithm(self.algorithm());
+                }
+                let default_sep = if full { Sep::Unicode } else { Sep::Ascii };
+                if self.sep != default_sep {
+                    o = o.word_separator(self.separator());
+                }
+                if self.split != Split::Hyphen {
+                    o = o.word_splitter(self.split.splitter());
+                }
+                // The defaults are documented, but no listed property is
+                // about them: should they differ from what this harness
+                // assumes (a retuned penalty, another default separator),
+                // the property still quantifies over the option *values*, so
+                // fall back to setting every field instead of alarming.
+                if o.width != self.width
+                    || o.line_ending != le
+                    || o.initial_indent != self.initial_indent
+                    || o.subsequent_indent != self.subsequent_indent
+                    || o.break_words != self.break_words
+                    || o.wrap_algorithm != self.algorithm()
+                    || o.word_separator != self.separator()
+                    || o.word_splitter != self.split.splitter()
+                {
+                    o = Options::new(self.width);
+                    o.line_ending = le;
+                    o.initial_indent = &self.initial_indent;
+                    o.subsequent_indent = &self.subsequent_indent;
+                    o.break_words = self.break_words;
+                    o.wrap_algorithm = self.algorithm();
+                    o.word_separator = self.separator();
+                    o.word_splitter = self.split.splitter();
+                }
+                o
+            }
+            (_, 0) => Options::new(self.width)
                 .initial_indent(&self.initial_indent)
                 .subsequent_indent(&self.subsequent_indent)
                 .break_words(self.break_words)
@@ -176,7 +231,7 @@ impl OptSpec {
                 .word_separator(self.separator())
                 .word_splitter(self.split.splitter())
                 .line_ending(le),
-            1 => Options::new(self.width.wrapping_add(7))
+            (_, 1) => Options::new(self.width.wrapping_add(7))
                 .line_ending(le)
                 .word_splitter(self.split.splitter())
                 .word_separator(self.separator())
